@@ -6,7 +6,7 @@
    statements closed by [exact] + Print Assumptions. *)
 From Coq Require Import NArith List Bool.
 From Mpc Require Import Base.Label Circuit.Circuit Circuit.Garble Circuit.GGarble Circuit.GGarbleProof
-     Circuit.RunC04.
+     Circuit.GGarbleHubProof Circuit.RunC04.
 Import ListNotations.
 From Mpc Require Gen.State Base.StateExpected Base.StateCheck Base.StatePkgs.
 
@@ -43,6 +43,22 @@ Theorem C04_stream :
     r_safe Rsym (sym_stream_transcript false perm G ni n steps x).
 Proof. exact sym_stream_safe. Qed.
 Print Assumptions C04_stream.
+
+(* LONG sessions.  A HUB session: [length bs] streamed single-AND circuits that all have the SAME
+   first input wire (global wire 0) and as second input any session input or earlier output
+   ([hub_ok]), each writing a fresh global wire — the shape harness/c04long.go drives through the
+   implementation with more than 131072 circuits (every first-half-gate hash of the session is
+   keyed by the hub's two labels, so safety rests on the uniqueness of the tweaks alone).  For
+   EVERY length below 2^31 circuits, every choice of second inputs, permute bits and input bits
+   the session is well formed, consumes 2 * length tweaks, and its transcript contains neither R
+   nor two values R apart (instance of C04_stream; the hypotheses are discharged, not assumed). *)
+Theorem C04_stream_hub_sessions :
+  forall (perm : nat -> bool) (ni : nat) (bs : list nat) (x : list bool),
+    (1 <= ni)%nat -> hub_ok ni bs -> (2 * N.of_nat (length bs) <= 2 ^ 32)%N ->
+    r_safe Rsym (sym_stream_transcript false perm (ni + length bs) ni (ni + length bs + 3)
+                   (hub_steps ni bs) x).
+Proof. exact stream_hub_safe. Qed.
+Print Assumptions C04_stream_hub_sessions.
 
 (* the executed model follows the session-wide counter *)
 Theorem C04_stream_mode_now : stream_tweak_reset_now = false.
